@@ -110,6 +110,8 @@ impl ZalsaLocal {
         ingredient: IngredientIndex,
         mut value: impl FnOnce(Id) -> T,
     ) -> (Id, &'db T) {
+        #[cfg(feature = "verif")]
+        crate::verif::failpoint(crate::verif::Site::BeforeAllocate);
         // SAFETY: `ZalsaLocal` is `!Sync`, and we never expose a reference to this field,
         // so we have exclusive access.
         let most_recent_pages = unsafe { &mut *self.most_recent_pages.get() };
